@@ -146,6 +146,17 @@ CHECKS = {
         note='AST-level Allowed relation + execution approximates the "bisimilar code" wording; the classifier is statement-local; one known finding (D20).',
         technique='TLA+ (TLC) model checking of suite rewriting + replay of every enumerated case into the real transformers',
         design_ref='3.3, 5 (C05)'),
+    'C06': dict(
+        specs='HoistS.tla, Hoist.tla, Trace_Hoist.tla',
+        text='S = evaluation-scope and visibility rules for 18 places of a fixed skeleton (class bodies, defaults, decorators, comprehension, lambda, f-string value and '
+             'text, match pattern, __slots__, literal statement, docstring position) plus the exclusions the property lists; M = the hoister\'s use collection and '
+             'deepest-common-function-namespace placement. TLC checks M |= S for every set of <= 4 (quick) / 5 (thorough) places x 4 literal kinds. Every case '
+             '(quick 2 712 x 3 option sets) is concretised and minified by the real code; TLC judges which places were replaced, the scope / count / position / '
+             'value of every alias assignment, docstring and __future__ positions, compilation and a run of both programs.',
+        note='Fixed skeleton (one program shape, all placements); alias assignments recognised structurally; known finding D18 (PEP 709) matched by its version '
+             'signature (correct on 3.11, NameError on 3.12).',
+        technique='TLA+ (TLC) check of hoist placement against scoping rules + replay of every enumerated placement into the real minifier',
+        design_ref='3.2, 3.3, 5 (C06)'),
     'C07': dict(
         specs='Fold.tla, Trace_Fold.tla',
         text='Decision structure of the folder (M) against the numeric tower and the property\'s rule (S: result type or exception per operator x '
